@@ -151,6 +151,8 @@ impl Property for C10 {
             "acc_Mean",
             "two_learns",
             "optimizer_swapped_mid_history",
+            "loops_ge_6",
+            "steps_ge_100",
             "clock_advancing",
             "clock_frozen",
             "optimizer_SGDM",
@@ -161,6 +163,7 @@ impl Property for C10 {
     }
 
     fn generate(&self, rng: &mut Rng, _tier: Tier) -> Case {
+        let scale_case = begin_case(rng);
         let mut net;
         let mut tries = 0;
         loop {
@@ -188,7 +191,7 @@ impl Property for C10 {
                 }
             }
         }
-        let n = rng.range(1, 8);
+        let n = if scale_case { rng.range(30, 120) } else { rng.range(1, 8) };
         let train = gen_data(rng, &net, n);
         let v = rng.range(1, 4);
         let val = gen_data(rng, &net, v);
@@ -197,7 +200,7 @@ impl Property for C10 {
         let learns = rng.range(1, 3);
         for i in 0..learns {
             ops.push(Op::Learn {
-                epochs: rng.range(1, 3) as i32,
+                epochs: if scale_case { rng.range(5, 25) as i32 } else { rng.range(1, 3) as i32 },
                 with_val: rng.chance(0.3),
                 print: if rng.chance(0.25) { Some(rng.pick(&[1i32, 2, 5])) } else { None },
             });
@@ -230,6 +233,7 @@ impl Property for C10 {
                 }
                 stats.probe("loops_ge_2", *loops >= 2);
                 stats.probe("loops_ge_4", *loops >= 4);
+                stats.probe("loops_ge_6", *loops >= 6);
                 stats.probe("block_dense", layers.iter().any(|l| matches!(l, LayerCfg::Dense { .. })));
                 stats.probe("block_conv", layers.iter().any(|l| matches!(l, LayerCfg::Conv { .. })));
                 stats.probe("block_deconv", layers.iter().any(|l| matches!(l, LayerCfg::Deconv { .. })));
@@ -241,6 +245,15 @@ impl Property for C10 {
         if !any_block {
             return Outcome::Degenerate("generator produced no feedback block".into());
         }
+        let steps: usize = case
+            .ops
+            .iter()
+            .map(|o| match o {
+                Op::Learn { epochs, .. } => *epochs as usize * ((case.train.len() + case.batch - 1) / case.batch.max(1)),
+                _ => 0,
+            })
+            .sum();
+        stats.probe("steps_ge_100", steps >= 100);
         stats.probe("two_learns", case.ops.iter().filter(|o| matches!(o, Op::Learn { .. })).count() >= 2);
         stats.probe("optimizer_swapped_mid_history", case.ops.iter().any(|o| matches!(o, Op::SetOptimizer(_))));
         stats.probe("clock_advancing", case.env.clock.1 != 0);
